@@ -187,7 +187,27 @@ class RustFile:
         return found[nth]
 
     def _inside_mod_only(self, idx):
-        return False
+        """true iff every block enclosing idx is a `mod name { .. }`"""
+        t = self.text
+        stack = []
+        for i in range(0, idx):
+            if self.mask[i]:
+                if t[i] == '{':
+                    stack.append(i)
+                elif t[i] == '}':
+                    if stack:
+                        stack.pop()
+        for o in stack:
+            ls = self.line_start(o)
+            hdr = t[ls:o]
+            # header may span lines; look back to previous ';' or '}' or '{'
+            j = o - 1
+            while j >= 0 and not (self.mask[j] and t[j] in ';{}'):
+                j -= 1
+            hdr = t[j + 1:o]
+            if not re.search(r'\bmod\s+\w+\s*$', strip_comments(self, j + 1, o).strip()):
+                return False
+        return True
 
     def find_fn(self, name, within=None, nth=0):
         """Locate fn `name` directly inside `within`=(open_idx, close_idx) of an impl/trait
